@@ -183,6 +183,83 @@ def stats(chk, ops, iv):
     return evs
 
 
+
+# ---------------------------------------------------------------- E2-lite: exits racing registrations
+def rep(label, n):
+    return "repeat (" + label + ") " + str(n)
+
+
+# (name, harness line, model calls, setup ops, model schedule, a linearization of the whole race)
+RACES = [
+    ("exit between entry acquisition and the locked re-check of join",
+     "race m 1 3;ms 1 4 | start A j 1 1 1,2 @join.actor | start B x 1 | go A",
+     "[CJoin 1 1 [1; 2]]", [("m", 1, 3), ("ms", 1, 4)],
+     [rep("LT 0", 4), rep("LX 1", 3), rep("LT 0", 20)],
+     [("x", 1), ("j", 1, 1, [1, 2])]),
+    ("exit after join released the entry, before its notifications",
+     "race m 1 3;ms 1 4 | start A j 1 1 1,2 @join.released | start B x 1 | go A",
+     "[CJoin 1 1 [1; 2]]", [("m", 1, 3), ("ms", 1, 4)],
+     [rep("LT 0", 8), rep("LX 1", 20), rep("LT 0", 20)],
+     [("j", 1, 1, [1, 2]), ("x", 1)]),
+    ("exit between the unlocked filter and the entry acquisition of join",
+     "race m 1 3 | start A j 1 1 1,2 @join.filtered | start B x 1 | go A",
+     "[CJoin 1 1 [1; 2]]", [("m", 1, 3)],
+     [rep("LT 0", 3), rep("LX 1", 20), rep("LT 0", 20)],
+     [("x", 1), ("j", 1, 1, [1, 2])]),
+    ("leave_scoped and a join racing leave_all after it took the memberships",
+     "race ms 0 4;j 1 1 1;j 2 2 1,2 | start B x 1 @leave_all.taken | start A l 1 1 1 | start C j 1 2 1,2 | go B",
+     "[CLeave 1 1 [1]; CJoin 1 2 [1; 2]]", [("ms", 0, 4), ("j", 1, 1, [1]), ("j", 2, 2, [1, 2])],
+     [rep("LX 1", 5), rep("LT 0", 20), rep("LT 1", 20), rep("LX 1", 20)],
+     [("l", 1, 1, [1]), ("x", 1), ("j", 1, 2, [1, 2])]),
+    ("monitor_scope holding a relations handle across the whole exit",
+     "race j 1 1 2 | start A ms 2 1 @monitor_scope.created | start B x 1 | go A",
+     "[CMonScope 2 1]", [("j", 1, 1, [2])],
+     [rep("LT 0", 1), rep("LX 1", 20), rep("LT 0", 20)],
+     [("x", 1), ("ms", 2, 1)]),
+    ("monitor and join between the publication of Stopping and the drain",
+     "race j 1 1 1;m 2 1;ms 0 4 | start B x 1 @exit.published | start A m 1 1 | start C j 2 1 1,2 | go B",
+     "[CMon 1 1; CJoin 2 1 [1; 2]]", [("j", 1, 1, [1]), ("m", 2, 1), ("ms", 0, 4)],
+     [rep("LX 1", 1), rep("LT 0", 20), rep("LT 1", 20), rep("LX 1", 20)],
+     [("x", 1), ("m", 1, 1), ("j", 2, 1, [1, 2])]),
+]
+
+
+def run_races(chk, build, rounds, only=None):
+    sel = [r for r in RACES if only is None or r[1] in only]
+    if not sel:
+        return
+    lines = [r[1] for r in sel] * rounds
+    impl = run_harness(build, "eng_pg", lines, shards=1, timeout=600)
+    exprs = []
+    for k, line in enumerate(lines):
+        name, _, calls, setup, sched, lin = sel[k % len(sel)]
+        sch = " ++ ".join(sched)
+        exprs.append(f"view_of {UNIVERSE} (c_pg (crun (fold_left solo_op {ops_term(setup)} (cinit {calls})) ({sch}))) []")
+        v = show_term(parse_term(impl[k])[1])
+        ops = ops_term(setup + lin)
+        exprs.append(f"(check_queries {UNIVERSE} (spec_run {ops}) {v} && check_snapshot {UNIVERSE} (spec_run {ops}) (v_snap {v}))%bool")
+    vals = coq_eval("C11r", IMPORTS, exprs, shards=min(NCPU, 6))
+    bad = []
+    for k, line in enumerate(lines):
+        name = sel[k % len(sel)][0]
+        mv = canon(parse_term(vals[2 * k]))
+        iv = canon(parse_term(impl[k])[1])
+        chk.coverage["evaluations"] += 1
+        chk.count("race." + name)
+        desc = f"{line}\nrace: {name}\nimplementation final view: {show_term(parse_term(impl[k])[1])}\nmodel final view: {vals[2 * k]}\n"
+        if vals[2 * k + 1].strip() != "true":
+            bad.append(("999" in show_term(parse_term(impl[k])[1]),
+                        "race: zombie / stale index / leaked entry after an exit racing a registration: " + name,
+                        "C11 oracle (check_queries, check_snapshot) rejects the final state of the race\n" + desc))
+        elif mv[1:8] != iv[1:8]:   # all query fields and the snapshot; events are not in the micro-step model
+            chk.coverage["disagreements_checked"] += 1
+            chk.violation("race: micro-step model and implementation end in different states: " + name,
+                          "correspondence E2:pg race differs (oracle accepts)\n" + desc, failing_input=False)
+    for _, what, payload in sorted(bad, key=lambda b: b[0]):
+        chk.violation(what, payload)
+    chk.coverage["races_validated_against_impl"] = len(lines)
+
+
 WHY = {1: "a query disagrees with the membership sets (listed iff has members)",
        2: "cross-index disagreement / zombie / leaked reverse-index entry in the four indexes",
        3: "a notification is missing, went to a non-monitor or has the wrong scope/group/actors",
@@ -277,6 +354,10 @@ def run(chk):
                                             "last_view_model": model[i][-600:]})
     for _, what, payload in sorted(hard, key=lambda h: h[0]):
         chk.violation(what, payload)
+    if not getattr(chk, "replay", None):
+        run_races(chk, build, 3 if quick else 30)
+    else:
+        run_races(chk, build, 1, only=[l.strip() for l in open(chk.replay).read().split("\n") if l.startswith("race ")])
     chk.coverage["traces_validated_against_impl"] = n
     chk.coverage["distinct_nontrivial"] = len(distinct)
     chk.coverage["rule"] = ("exhaustive: all op sequences of length %d over a 12-letter alphabet (joins with duplicates, "
